@@ -1,30 +1,109 @@
 (* Check/Chk_C19.v -- correspondence checker for C19: the implementation's answers to an operation
-   sequence on one or several real PluginManager instances vs. Model/Registry.v. *)
+   sequence on one or several real PluginManager instances (all plug-in types) vs. Model/Registry.v. *)
 From Coq Require Import List Bool Arith String.
 From Ropt Require Import Base.ListX Model.Registry Gen.Generated.
 Import ListNotations.
 
 Record case := {
-  c_init : registry;                  (* content of a fresh manager (entry points), in order *)
+  c_init : manager;                     (* content of a fresh manager (entry points): one registry per type, in order *)
+  c_fresh_after : list (list (string * nat)); (* implementation: listing of a manager created AFTER the run, per type *)
   c_managers : nat;
-  c_ops : list (nat * op);            (* (manager index, operation) *)
-  c_answers : list ans;               (* implementation answers *)
-  c_final : list (list string)        (* implementation: plug-in names of every manager at the end *)
+  c_ops : list (nat * (nat * op));      (* (manager index, (type index, operation)) *)
+  c_answers : list ans;                 (* implementation answers *)
+  c_consult : list (list (nat * string)); (* implementation: per operation, the is_supported calls received by stub
+                                             plug-ins (stub id, argument), in order *)
+  c_final : list (list (list (string * nat))) (* implementation: plugins(type) of every manager and type at the end *)
 }.
+
+Definition pair_eqb (a b : string * nat) : bool := String.eqb (fst a) (fst b) && Nat.eqb (snd a) (snd b).
+Definition cons_eqb (a b : nat * string) : bool := Nat.eqb (fst a) (fst b) && String.eqb (snd a) (snd b).
 
 Definition ans_eqb (a b : ans) : bool :=
   match a, b with
-  | AOk, AOk | AErr, AErr => true
+  | AOk, AOk | AErr, AErr | ABad, ABad => true
   | APlug x, APlug y => Nat.eqb x y
   | ABool x, ABool y => Bool.eqb x y
+  | AList x, AList y => list_eqb pair_eqb x y
+  | _, _ => false
+  end.
+
+(* stub plug-ins (the only ones that log their is_supported calls) have ids >= 100 *)
+Definition is_stub (e : nat * string) : bool := 100 <=? fst e.
+
+(* the hypotheses of the theorems hold for the observed fresh manager: distinct lower-case names, and an
+   external plug-in is never discoverable *)
+Fixpoint nodupb (l : list string) : bool :=
+  match l with [] => true | h :: t => negb (existsb (String.eqb h) t) && nodupb t end.
+Definition wf_reg (r : registry) : bool :=
+  nodupb (names r) && forallb (fun k => String.eqb (lower k) k) (names r) &&
+  forallb (fun np => match kind (snd np) with External => negb (disc (snd np)) | _ => true end) r.
+
+(* consultation of registered plug-ins by one operation, model vs. implementation *)
+Definition consult_ok (oinit : registry) (u : list manager) (o : nat * (nat * op)) (seen : list (nat * string)) : bool :=
+  let r := reg_of u (fst o) (fst (snd o)) in
+  match snd (snd o) with
+  | Get m | Sup m =>
+      match split_slash m with
+      | (_, Some _) =>      (* "plugin/method": exactly the named plug-in is asked, with the tail verbatim *)
+          list_eqb cons_eqb (filter is_stub (consulted oinit r m)) seen
+      | (_, None) =>        (* bare: only plug-ins registered in THIS manager and type, with the method verbatim *)
+          forallb (fun e => String.eqb (snd e) m && existsb (fun np => Nat.eqb (pid (snd np)) (fst e)) r) seen
+      end
+  | Lst | Fwd _ => match seen with [] => true | _ => false end
+  | Add _ _ _ => true
+  end.
+
+Fixpoint consult_all (oinit : registry) (u : list manager) (ops : list (nat * (nat * op)))
+                     (seen : list (list (nat * string))) : bool :=
+  match ops, seen with
+  | [], [] => true
+  | o :: t, s :: ss => consult_ok oinit u o s && consult_all oinit (fst (ustep oinit u o)) t ss
   | _, _ => false
   end.
 
 Definition check_case (c : case) : bool :=
-  let (a, uf) := urun (c_init c) (repeat (c_init c) (c_managers c)) (c_ops c) in
+  let oinit := nth 0 (c_init c) [] in
+  let u0 := repeat (c_init c) (c_managers c) in
+  let (a, uf) := urun oinit u0 (c_ops c) in
+  forallb wf_reg (c_init c) &&
   list_eqb ans_eqb a (c_answers c) &&
-  list_eqb (list_eqb String.eqb) (map names uf) (c_final c).
+  list_eqb (list_eqb (list_eqb pair_eqb)) (map (map listing) uf) (c_final c) &&
+  list_eqb (list_eqb pair_eqb) (map listing (c_init c)) (c_fresh_after c) &&
+  consult_all oinit u0 (c_ops c) (c_consult c).
 
-(* constructors used by the harness *)
+(* constructors used by the harness (short, monomorphic: the case literals are large and elaboration dominates) *)
+Definition oA (i t : nat) (n : string) (p : plugin) (pr : bool) : nat * (nat * op) := (i, (t, Add n p pr)).
+Definition oG (i t : nat) (m : string) : nat * (nat * op) := (i, (t, Get m)).
+Definition oS (i t : nat) (m : string) : nat * (nat * op) := (i, (t, Sup m)).
+Definition oL (i t : nat) : nat * (nat * op) := (i, (t, Lst)).
+Definition oF (i t : nat) (m : string) : nat * (nat * op) := (i, (t, Fwd m)).
+Definition P (s : string) (n : nat) : string * nat := (s, n).
+Definition K (n : nat) (s : string) : nat * string := (n, s).
+Definition LP (l : list (string * nat)) := l.
+Definition LK (l : list (nat * string)) := l.
 Definition tbl (id : nat) (ms : list string) (d : bool) : plugin := {| pid := id; kind := Table ms; disc := d |}.
+Definition exa (id : nat) (ms : list string) (d : bool) : plugin := {| pid := id; kind := Exact ms; disc := d |}.
 Definition ext (id : nat) : plugin := {| pid := id; kind := External; disc := false |}.
+
+(* an instance of built-in plug-in class k carrying identity id; method tables are the generated ones *)
+Definition B (k id : nat) : plugin :=
+  match k with
+  | 0 => ext id
+  | 1 => tbl id scipy_optimizer_plugin_methods true
+  | 2 => tbl id scipy_sampler_plugin_methods true
+  | 3 => tbl id realization_filter_methods true
+  | 4 => tbl id function_estimator_methods true
+  | 5 => tbl id plan_handler_methods true
+  | 6 => tbl id plan_step_methods true
+  | _ => tbl id [] true         (* an entry-point plug-in this check does not know: supports nothing *)
+  end.
+
+(* the entry-point content of the pinned tree (the harness prints this name when it observes exactly this) *)
+Definition std_init : manager :=
+  [ [("external"%string, B 0 0); ("scipy"%string, B 1 1)];
+    [("scipy"%string, B 2 2)];
+    [("default"%string, B 3 3)];
+    [("default"%string, B 4 4)];
+    [("default"%string, B 5 5)];
+    [("default"%string, B 6 6)] ].
+Definition std_listing : list (list (string * nat)) := map listing std_init.
